@@ -906,15 +906,23 @@ def fuse(term):
                     g.iter = ast.Call(func=ast.Name(id="range", ctx=ast.Load()), args=[
                         ast.Call(func=ast.Name(id="len", ctx=ast.Load()), args=[copy.deepcopy(it.args[0])], keywords=[])], keywords=[])
                     ast.fix_missing_locations(n)
-            if len(n.generators) == 1 and isinstance(n.generators[0].iter, ast.ListComp) and isinstance(n.generators[0].target, ast.Name):
-                inner = n.generators[0].iter
-                if len(inner.generators) == 1:
-                    x = n.generators[0].target.id
+            tg0 = n.generators[0].target if len(n.generators) == 1 else None
+            it0 = n.generators[0].iter if len(n.generators) == 1 else None
+            mapping = None
+            if isinstance(it0, (ast.ListComp, ast.GeneratorExp)) and len(it0.generators) == 1:
+                if isinstance(tg0, ast.Name):
+                    mapping = {tg0.id: it0.elt}
+                elif isinstance(tg0, ast.Tuple) and isinstance(it0.elt, ast.Tuple) and len(tg0.elts) == len(it0.elt.elts) \
+                        and all(isinstance(t, ast.Name) for t in tg0.elts):
+                    mapping = {t.id: e for t, e in zip(tg0.elts, it0.elt.elts)}
+            if mapping is not None:
+                inner = it0
+                if True:
                     bound = {t.id for t in ast.walk(inner.generators[0].target) if isinstance(t, ast.Name)}
                     free_outer = {t.id for t in ast.walk(n.elt) if isinstance(t, ast.Name)} | \
                                  {t.id for c in n.generators[0].ifs for t in ast.walk(c) if isinstance(t, ast.Name)}
-                    if not (bound & (free_outer - {x})):
-                        sub = _Subst({x: inner.elt}, set())
+                    if not (bound & (free_outer - set(mapping))):
+                        sub = _Subst(mapping, set())
                         elt = sub.visit(copy.deepcopy(n.elt))
                         ifs = [copy.deepcopy(c) for c in inner.generators[0].ifs] + [sub.visit(copy.deepcopy(c)) for c in n.generators[0].ifs]
                         out = ast.ListComp(elt=elt, generators=[ast.comprehension(
